@@ -75,12 +75,14 @@ pub fn check_pos(ctx: &mut Ctx, mp: &MPos, b: &Board) {
     }
 
     // full string-space sweep on a sample of positions
+    let miri = ctx.config == "miri";
     let sweep = ctx.is_replay || ctx.cases % 12 == 1 || mp.ep.is_some() && ctx.cases % 3 == 0 || mp.castle.iter().any(|&c| c) && ctx.cases % 4 == 0;
-    if sweep {
+    if sweep && (!miri || ctx.cases <= 2) {
         ctx.feature("string_space_sweeps");
         let mut n = 0u64;
         let mut text = String::with_capacity(5);
-        for from in 0..64u8 {
+        // under Miri: only the source squares that hold a man of the side to move, every 4th of the rest
+        for from in (0..64u8).filter(|&f| !miri || (mp.at(f) != EMPTY && is_white(mp.at(f)) == mp.white_to_move) || f % 16 == 3) {
             for to in 0..64u8 {
                 for promo in [None, Some(b'N'), Some(b'B'), Some(b'R'), Some(b'Q')] {
                     text.clear();
